@@ -54,6 +54,10 @@ import (
 //             is pacing only - the verdict compares the logged Seq of "write complete" with "handler entered" and
 //             "processing returned".
 //
+// cross:      c15_cross.go - two stack operations on two connections, both publishing, the event of the first one held at
+//             the core level ahead of the local device while the second one runs on another goroutine (lock order
+//             between the delivery lock and the locks the stack's own publishers / core-level handler take).
+//
 // The bus is process-global: foreign handlers (the World's core sink, DeviceLocal) stay subscribed and
 // simply ignore the tokens; spine.VerifHandlerCount is only recorded.
 
@@ -81,6 +85,9 @@ func init() {
 			"integrated, connection REPLACED: in two of five reconnects of the classic cases, in three more life cycle templates (eleven in all) (the only connection replaced after / before its announcement; the remaining one replaced after another peer left for good) and in a quarter of the drawn steps SetupRemoteDevice is called for a SKI that is still registered (no RemoveRemoteDeviceConnection in between); two more templates and a sixth of the drawn steps for an unconnected peer report the end of a connection that does not exist (a peer that never connected, or a second time for a peer that has left) while another peer is connected and has not announced itself yet; " +
 			"the stack's own reaction is also counted per connection: at most one NodeManagement subscription call and one use-case read for the one announcement of a connection. " +
 			"Expected deliveries per peer = number of announcements of the script (classic cases: number of discovery replies processed), not what another bus handler saw. " +
+			"bus, snapshot stage (every case, two rounds, c15_snap.go): all handlers are unsubscribed and subscribed anew in a drawn order, then one event is published during which a drawn actor (core-level three times in four) has a drawn victim (core or application level, earlier or later in the list) unsubscribed from inside HandleEvent - by itself or by another goroutine while it stays inside until that Unsubscribe returned; the victim was subscribed at publication time: exactly once. " +
+			"bus, every publication: 'subscribed at publication time' is bounded by the first entry of any handler for that event (an event is not delivered before it is published): a handler whose unsubscription was CALLED only after that entry is an exactly-once pair, not an at-most-once pair. " +
+			"cross (c15_cross.go): case = two stack operations on two of three connections (first discovery reply / subscription request / binding request / subscription delete / binding delete / end of a connection with a subscription and a binding; all 30 ordered pairs on different peers walked by the case index), the event of the first one held inside a core-level handler that precedes the local device in the handler list while the second one is started on another goroutine (one case in six: nothing held, both started together); non-trivial if the event was held (or control case) and at least two events were compared between the core-level observer and the application handler. " +
 			"distinct = hash of operation kinds, targets, goroutine split and action slots.",
 		Assumptions: []string{
 			"a delivery is attributed to the core level if it ran on the goroutine that called Publish, else to the application level (only needed for the handler that is subscribed at both levels)",
@@ -90,6 +97,8 @@ func init() {
 			"a publisher or handler that does not return parks the case for the parent's hang monitor (hang@<frame>)",
 			"integrated: 'the stack's internal handlers have finished' is observed through the two messages DeviceLocal.HandleEvent (the stack's core-level handler of DeviceChange/add) sends to the announcing peer: the handler has finished only when both connection writes have returned (sending is synchronous). 'before publication returns' is observed at the return of DeviceRemote.HandleSpineMesssage for the discovery reply, inside which the event is published. A parked write is released by the case at a logical point; the length of the hold never enters a verdict",
 			"burst stage: 'application handlers run asynchronously' holds for any number of application-level invocations in flight: a publication never waits for an application-level invocation to return, and the start of an application-level invocation never waits for another one (of the same or of an earlier event, of the same or of another handler) to return; a handler may therefore wait inside HandleEvent for later publications to return and for their deliveries to start. The watchdog (8 s without any movement, everything involved being runnable) only ends the wait; the verdict is on the logged order",
+			"snapshot stage and every publication: the moment of publication lies between the call of Publish and the first entry of any handler for that event; a handler subscribed during that whole interval was 'subscribed at publication time' whenever exactly the stack takes its snapshot. An unsubscription that only overlaps the wait of a publication for the delivery lock (no handler entered yet) stays an at-most-once pair: the harness cannot tell whether the snapshot preceded it",
+			"cross: the hold of the first event ends when the second operation returned, a goroutine dump shows a second goroutine inside events.Publish, or 60 ms passed - pacing only; the verdicts are 'both operations return' (parent's hang monitor) and the multiset comparison of the events received at the two levels once the process is quiet",
 			"mutual-wait stage: 'application handlers run asynchronously' includes 'with respect to each other': the delivery of an event to one application handler does not wait for another application handler of the same event to return. A handler's wait for another handler's entry is bounded by 5 s with nothing else pending in the process (Publish has started the later handler's goroutine before it returned); the verdict needs the expiry AND the logged order 'the awaited handler entered only after the waiting one had left'",
 		},
 		Parts: []rig.Part{
@@ -97,6 +106,8 @@ func init() {
 			{Name: "bus-race", Race: true, Run: c15Bus, Procs: 4, Quiet: 90 * time.Second, Cases: func(t rig.Tier) int { return map[rig.Tier]int{rig.Quick: 64, rig.Thorough: 800}[t] }},
 			{Name: "integrated", Run: c15Integrated, Procs: 4, Quiet: 50 * time.Second, Cases: func(t rig.Tier) int { return map[rig.Tier]int{rig.Quick: 80, rig.Thorough: 800}[t] }},
 			{Name: "leave-join", Run: c15LeaveJoin, Procs: 4, Quiet: 90 * time.Second, Cases: func(t rig.Tier) int { return map[rig.Tier]int{rig.Quick: 60, rig.Thorough: 1200}[t] }},
+			{Name: "cross", Run: c15Cross, Procs: 4, Quiet: 45 * time.Second, Cases: func(t rig.Tier) int { return map[rig.Tier]int{rig.Quick: 60, rig.Thorough: 600}[t] }},
+			{Name: "cross-race", Race: true, Run: c15Cross, Procs: 4, Quiet: 90 * time.Second, Cases: func(t rig.Tier) int { return map[rig.Tier]int{rig.Quick: 16, rig.Thorough: 150}[t] }},
 			{Name: "integrated-race", Race: true, Run: c15Integrated, Procs: 4, Quiet: 90 * time.Second, Cases: func(t rig.Tier) int { return map[rig.Tier]int{rig.Quick: 20, rig.Thorough: 200}[t] }},
 		},
 	})
@@ -195,6 +206,10 @@ type c15Case struct {
 	burstOf  map[int]*c15Burst
 	bursts   []*c15Burst
 	plain    map[int]bool
+
+	// snapshot stage (c15_snap.go): the next top-level publication gets nextSnap; snaps is keyed by token id
+	nextSnap *c15Snap
+	snaps    map[int]*c15Snap
 }
 
 // c15Await: while handling ONE event, an application handler stays inside HandleEvent until other application
@@ -264,6 +279,7 @@ func (h *c15Handler) HandleEvent(p api.EventPayload) {
 	onPublisher := cs.pubs[tok.id] != nil && cs.pubs[tok.id].goid == g
 	aw := cs.awaits[tok.id]
 	bs := cs.burstOf[tok.id]
+	sn := cs.snaps[tok.id]
 	if cs.plain[tok.id] {
 		act = c15Act{}
 	}
@@ -275,6 +291,9 @@ func (h *c15Handler) HandleEvent(p api.EventPayload) {
 		if !onPublisher {
 			done = bs.handle(cs, h, tok, act)
 		}
+	} else if sn != nil {
+		// an event of the snapshot stage: only the drawn actor does something
+		done = sn.handle(cs, h, tok, onPublisher)
 	} else if aw != nil {
 		// an event of the mutual-wait stage: no other re-entrant action
 		if ch := aw.entered[h.idx]; ch != nil {
@@ -484,6 +503,9 @@ func (cs *c15Case) publishX(depth int, by string, plain bool) {
 	if depth == 0 && cs.nextAwait != nil {
 		cs.awaits[id], cs.nextAwait = cs.nextAwait, nil
 	}
+	if depth == 0 && cs.nextSnap != nil {
+		cs.snaps[id], cs.nextSnap = cs.nextSnap, nil
+	}
 	if depth == 0 && cs.burstCur != nil {
 		cs.burstOf[id] = cs.burstCur
 		cs.burstCur.ids = append(cs.burstCur.ids, id)
@@ -547,7 +569,7 @@ func c15Bus(c *rig.Ctx) {
 	c.Count("foreign_handlers_subscribed_at_start", int64(spine.VerifHandlerCount()))
 
 	cs := &c15Case{c: c, w: w, ent: ent, feat: feat, peer: peer, names: []string{"K1", "K2", "A1", "A2", "A3"},
-		pubs: map[int]*c15Pub{}, reentrant: map[string]int{}, awaits: map[int]*c15Await{}, burstOf: map[int]*c15Burst{}, plain: map[int]bool{}, toks: map[int]*c15Token{}, payloads: map[int]api.EventPayload{}, salt: r.Uint64()}
+		pubs: map[int]*c15Pub{}, reentrant: map[string]int{}, awaits: map[int]*c15Await{}, burstOf: map[int]*c15Burst{}, snaps: map[int]*c15Snap{}, plain: map[int]bool{}, toks: map[int]*c15Token{}, payloads: map[int]api.EventPayload{}, salt: r.Uint64()}
 	for i := range cs.names {
 		cs.hs = append(cs.hs, &c15Handler{cs: cs, idx: i})
 	}
@@ -709,6 +731,12 @@ func c15Bus(c *rig.Ctx) {
 			return
 		}
 	}
+	// snapshot stage (c15_snap.go, every case): a handler is unsubscribed AFTER the event was published and BEFORE its turn
+	snapStage, ok := cs.snapStage(r, baseline, levelsOf, exec)
+	if !ok {
+		return
+	}
+	shape = append(shape, snapStage...)
 	// mutual-wait stage (every second case): the application handlers are subscribed anew in a drawn order, then
 	// one event is published during which an earlier subscribed one waits, inside HandleEvent, for a later one
 	var stage []string
@@ -792,7 +820,7 @@ func c15Bus(c *rig.Ctx) {
 		}
 		shape = append(shape, stage...)
 	}
-	cs.stage = stage
+	cs.stage = append(snapStage, stage...)
 	cs.judge(dual, levelsOf, nPub, strings.Join(shape, ","), prologue, lists, epilogue)
 }
 
@@ -819,7 +847,11 @@ func (cs *c15Case) judge(dual bool, levelsOf func(int) []int, nPub int, shape st
 	for _, d := range cs.dels {
 		delsByTok[d.tok] = append(delsByTok[d.tok], d)
 	}
-	classify := func(k lh, t0, t1 int64) string {
+	// tc: an upper bound of the moment of publication that is tighter than the return of Publish - the first entry of
+	// ANY handler for this event. An event cannot be delivered before it was published, so a handler whose subscription
+	// was complete before Publish was called and whose unsubscription was not even called before some handler had
+	// entered HandleEvent for that event WAS subscribed at publication time: exactly once, not "at most once".
+	classify := func(k lh, t0, t1, tc int64) string {
 		must := false
 		for _, s := range subs[k] {
 			if s.ret >= t0 {
@@ -827,7 +859,7 @@ func (cs *c15Case) judge(dual bool, levelsOf func(int) []int, nPub int, shape st
 			}
 			ok := true
 			for _, u := range unsubs[k] {
-				if !(u.ret < s.call || u.call > t1) {
+				if !(u.ret < s.call || u.call > tc) {
 					ok = false
 					break
 				}
@@ -867,7 +899,7 @@ func (cs *c15Case) judge(dual bool, levelsOf func(int) []int, nPub int, shape st
 		ids = append(ids, id)
 	}
 	sort.Ints(ids)
-	var nMust, nZero, nMay, nOrder int
+	var nMust, nZero, nMay, nOrder, nMustLate, nMustLateHist int
 	witness := func() string { return cs.renderLocked(400) }
 	for _, id := range ids {
 		p := cs.pubs[id]
@@ -875,6 +907,12 @@ func (cs *c15Case) judge(dual bool, levelsOf func(int) []int, nPub int, shape st
 			continue
 		}
 		t0, t1 := p.call, p.ret
+		tc := t1
+		for _, d := range delsByTok[id] {
+			if d.entry < tc {
+				tc = d.entry
+			}
+		}
 		// attribute deliveries to levels
 		got := map[lh][]c15Del{}
 		for _, d := range delsByTok[id] {
@@ -892,7 +930,13 @@ func (cs *c15Case) judge(dual bool, levelsOf func(int) []int, nPub int, shape st
 		for h := range cs.hs {
 			for _, l := range levelsOf(h) {
 				k := lh{l, h}
-				cl := classify(k, t0, t1)
+				cl := classify(k, t0, t1, tc)
+				if cl == "must" && tc < t1 && classify(k, t0, t1, t1) != "must" {
+					nMustLate++
+					if cs.snaps[id] == nil {
+						nMustLateHist++
+					}
+				}
 				n := len(got[k])
 				c.Events(1)
 				lv := c15LevelName(l)
@@ -908,7 +952,7 @@ func (cs *c15Case) judge(dual bool, levelsOf func(int) []int, nPub int, shape st
 				case n > 1:
 					c.Violate(lv+"/delivered-more-than-once", "event e%d (published by %s in [%d,%d]) reached %s at the %s level %d times (%s)\n%s", id, p.by, t0, t1, cs.names[h], lv, n, cl, witness())
 				case cl == "must" && n == 0:
-					c.Violate(lv+"/missing-delivery", "event e%d (published by %s in [%d,%d]) never reached %s although its %s-level subscription was complete before the publication and no unsubscription had started before it returned\n%s", id, p.by, t0, t1, cs.names[h], lv, witness())
+					c.Violate(lv+"/missing-delivery", "event e%d (published by %s in [%d,%d]) never reached %s although its %s-level subscription was complete before the publication and no unsubscription had started before it returned (or before the first handler had entered HandleEvent for it at %d)\n%s", id, p.by, t0, t1, cs.names[h], lv, tc, witness())
 				case cl == "zero" && n > 0:
 					dev := "/delivery-after-unsubscribe-returned"
 					if len(subs[k]) == 0 {
@@ -1034,6 +1078,9 @@ func (cs *c15Case) judge(dual bool, levelsOf func(int) []int, nPub int, shape st
 		c.Count("reentrant_"+k, int64(n))
 	}
 	c.Count("pairs_exactly_once", int64(nMust))
+	c.Count("pairs_exactly_once:unsubscribed_after_the_first_delivery_of_the_event_had_begun", int64(nMustLate))
+	c.Count("pairs_exactly_once:unsubscribed_after_the_first_delivery_of_the_event_had_begun:in_generated_history", int64(nMustLateHist))
+	cs.judgeSnaps(delsByTok)
 	c.Count("pairs_zero", int64(nZero))
 	c.Count("pairs_at_most_once(overlap)", int64(nMay))
 	c.Count("ordering_checks", int64(nOrder))
